@@ -52,10 +52,10 @@ RECURSIVE SendFold(_, _, _)
 SendFold(e, a, outs) == IF outs = <<>> THEN a ELSE SendFold(e, SendStep(e, a, Head(outs)), Tail(outs))
 
 \* ---- receiver side: fold over consumed frames; state b = [slots, due, refused]
-RecvStep(e, b, g) ==
+RecvStep(e, b, g, now) ==
   IF "unparsed" \in DOMAIN g \/ g.did < 0 \/ ~g.frag THEN b
   ELSE LET i == Idx(b.slots, LAMBDA x : x.e = e /\ x.ident = g.ident /\ x.src = g.src)
-           fresh == [e |-> e, ident |-> g.ident, src |-> g.src, did |-> g.did, ivs |-> <<>>, total |-> -1, bad |-> FALSE]
+           fresh == [e |-> e, ident |-> g.ident, src |-> g.src, did |-> g.did, ivs |-> <<>>, total |-> -1, bad |-> FALSE, t0 |-> now]
            have == i # 0
            room == Cardinality({j \in 1..Len(b.slots) : b.slots[j].e = e}) < cfg.slots
        IN IF ~have /\ ~room THEN [b EXCEPT !.refused = @ \cup {g.did}]
@@ -68,8 +68,10 @@ RecvStep(e, b, g) ==
                IN IF complete THEN [b EXCEPT !.slots = rest, !.due = IF s1.bad THEN @ ELSE @ \cup {g.did},
                                             !.refused = IF s1.bad THEN @ \cup {g.did} ELSE @]
                   ELSE [b EXCEPT !.slots = rest \o <<s1>>, !.refused = IF over THEN @ \cup {g.did} ELSE @]
-RECURSIVE RecvFold(_, _, _)
-RecvFold(e, b, rx) == IF rx = <<>> THEN b ELSE RecvFold(e, RecvStep(e, b, Head(rx)), Tail(rx))
+RECURSIVE RecvFold(_, _, _, _)
+RecvFold(e, b, rx, now) == IF rx = <<>> THEN b ELSE RecvFold(e, RecvStep(e, b, Head(rx), now), Tail(rx), now)
+\* a reassembly slot is given up 60 s after its first fragment (the worlds jump over that boundary by a second or more)
+Alive(sl, e, now) == SelectSeq(sl, LAMBDA x : ~(x.e = e /\ now - x.t0 > 60000))
 
 Step ==
   /\ l <= Len(Rec) /\ l' = l + 1
@@ -90,7 +92,7 @@ Step ==
                /\ UNCHANGED <<run, cfg, nruns, snd, done, acc, slots, due, refused>>
        [] r.ev = "poll" ->
             LET a == SendFold(r.ep, [snd |-> snd, done |-> done, v |-> <<>>], r.out)
-                b == RecvFold(r.ep, [slots |-> slots, due |-> due, refused |-> refused], r.rx)
+                b == RecvFold(r.ep, [slots |-> Alive(slots, r.ep, r.now), due |-> due, refused |-> refused], r.rx, r.now)
             IN /\ snd' = a.snd /\ done' = a.done /\ slots' = b.slots /\ due' = b.due /\ refused' = b.refused
                /\ viol' = AddAll(viol, a.v)
                /\ hits' = [hits EXCEPT !["F1"] = @ + Len(r.out), !["F2"] = @ + Len(r.out)]
